@@ -5,6 +5,7 @@ mod common;
 mod rng;
 mod c11;
 mod c06;
+mod c19;
 
 use std::io::{BufWriter, Write};
 
@@ -25,6 +26,7 @@ fn main() {
             match prop {
                 "C11" => c11::gen(tier, seed, &mut out),
                 "C06" => c06::gen(tier, seed, &mut out),
+                "C19" => c19::gen(tier, seed, &mut out),
                 _ => {
                     eprintln!("unknown property {}", prop);
                     std::process::exit(2);
@@ -44,6 +46,7 @@ fn main() {
                 writeln!(out, "{} => {}", input, obs).unwrap();
             }
         }
+        "c19w" => c19::worker(&args[2..], &mut out),
         _ => {
             eprintln!("unknown command");
             std::process::exit(2);
@@ -63,6 +66,12 @@ fn replay_one(toks: &[&str]) -> String {
             let scratch = common::scratch_root().join("c06r");
             std::fs::create_dir_all(&scratch).unwrap();
             let r = c06::observe(&toks[1..], &scratch);
+            common::rm_rf(&scratch);
+            r
+        }
+        "C19" => {
+            let scratch = c19::scratch();
+            let r = c19::observe(&toks[1..], &scratch);
             common::rm_rf(&scratch);
             r
         }
